@@ -285,6 +285,12 @@ func (ap *AP) S(size int, slices ...Slice) (newAP AP, ndStart, ndEnd int, err er
 		order = MakeDataOrder(order, NonContiguous)
 	}
 
+	if newShape.TotalSize() == 1 {
+		// one element is selected (possibly by a stepped range that spans more): the window is that element, whatever
+		// the ranges reach over - a one-element view is a scalar like any other
+		ndEnd = ndStart + 1
+	}
+
 	if ndEnd-ndStart == 1 {
 		// scalars are a special case
 		newAP = AP{}
